@@ -2534,6 +2534,101 @@ def check_transformations(ctx, judge, env, tr, f, only=None):
         judge.ask(graw, cont)
 
 
+def other_sort(s_):
+    """a different sort for a clashing declaration of the same name"""
+    if s_ == I:
+        return R
+    if s_ == R:
+        return I
+    if is_bv(s_):
+        return V(2 * s_[1])
+    if is_fn(s_):
+        return F(R, *([R] * len(s_[2])))
+    return I
+
+
+def check_normalize(ctx, env, f, clash_name=None):
+    """the transformation FormulaManager.normalize (FormulaContextualizer): a formula of environment A
+    re-created in environment B is the same formula (same structure, same declared sorts, same type);
+    when B already declares one of its symbols with ANOTHER sort, normalize must raise (the clash of
+    declarations), never return a formula typed differently from its source"""
+    try:
+        fraw = raw_of_fnode(f)
+    except wire.OutOfFragment:
+        return
+    fty = from_pysmt(env.stc.get_type(f))
+    rep = {"grid": "normalize", "formula": show_raw(fraw)[:400], "type": sort_name(fty), "request_in": "chk " + enc_raw(fraw)}
+    # (1) into an empty environment
+    envb = Environment()
+    try:
+        g = envb.formula_manager.normalize(f)
+        res = ("ok", g)
+    except Exception as e:      # noqa
+        res = ("err", type(e).__name__)
+    ctx.count("T_normalize")
+    ctx.case(("N", rep["request_in"]))
+    if res[0] == "err":
+        ctx.report_s({"oracle": "transform", "transform": "normalize", "kind": "raised-on-fresh-environment",
+                      "error": res[1], "root": fraw[0]},
+                     "normalize into an empty environment raised %s on %s" % (res[1], rep["formula"]), rep)
+    else:
+        graw = raw_of_fnode(res[1])
+        gty = from_pysmt(envb.stc.get_type(res[1]))
+        # same structure up to the order of the pairs of an array value (Array() orders them by id())
+        same = wire.term_key(f, ac_ops=set(), sort_qvars=False) == wire.term_key(res[1], ac_ops=set(), sort_qvars=False)
+        if not same or canon_sort(gty) != canon_sort(fty):
+            ctx.report_s({"oracle": "transform", "transform": "normalize", "kind": "changed-formula", "root": fraw[0]},
+                         "normalize returned %s : %r for %s : %r" % (show_raw(graw)[:300], gty, rep["formula"], fty), rep)
+    # (2) into an environment that declares one of the symbols with another sort
+    syms = sorted({(t_[1][1], t_[1][2]) for t_ in _symbols_of(fraw)})
+    if not syms:
+        return
+    if clash_name is None:
+        nm, s_ = syms[ctx.rng.randrange(len(syms))]
+    else:
+        nm, s_ = [x for x in syms if x[0] == clash_name][0]
+    envc = Environment()
+    try:
+        envc.formula_manager.Symbol(nm, to_pysmt(envc, other_sort(s_)))
+    except Exception:           # noqa
+        return
+    try:
+        g = envc.formula_manager.normalize(f)
+        res = ("ok", g)
+    except Exception as e:      # noqa
+        res = ("err", type(e).__name__)
+    ctx.count("T_normalize_clash_" + res[0])
+    ctx.case(("NC", nm, rep["request_in"]))
+    if res[0] == "ok":
+        try:
+            graw = show_raw(raw_of_fnode(res[1]))[:300]
+            gty = from_pysmt(envc.stc.get_type(res[1]))
+        except Exception as e:  # noqa
+            graw, gty = "?", type(e).__name__
+        ctx.report_s({"oracle": "transform", "transform": "normalize", "kind": "declaration-clash-accepted",
+                      "symbol-sort": sort_name(s_).split("(")[0][:12]},
+                     "normalize into an environment declaring %s : %s returned %s : %r for %s (where %s : %s) of type %r "
+                     "instead of raising" % (nm, sort_name(other_sort(s_)), graw, gty, rep["formula"], nm, sort_name(s_), fty),
+                     dict(rep, clash=nm))
+
+
+def _symbols_of(t, acc=None, seen=None):
+    """symbol leaves and function names of a raw tree, as symbol nodes"""
+    if acc is None:
+        acc, seen = [], set()
+    if id(t) in seen:
+        return acc
+    seen.add(id(t))
+    o, p, ch = t
+    if o == "symbol":
+        acc.append(t)
+    elif o == "function" and p is not None and p[0] == "y":
+        acc.append(("symbol", p, ()))
+    for c in ch:
+        _symbols_of(c, acc, seen)
+    return acc
+
+
 def run_transformations(ctx, judge, n):
     import gen
     import pysmt.environment
@@ -2549,6 +2644,10 @@ def run_transformations(ctx, judge, n):
         b, x = mgr.Symbol("p", env.type_manager.BOOL()), mgr.Symbol("x", env.type_manager.INT())
         seeds.append(mgr.Pow(mgr.Ite(b, mgr.Int(3), mgr.Int(3)), mgr.Int(2)))      # F05
         seeds.append(mgr.Equals(mgr.Pow(mgr.ToReal(x), mgr.Real(2)), mgr.Real(4)))
+        seeds.append(mgr.LE(x, mgr.Int(1)))
+        seeds.append(mgr.BVNot(mgr.Symbol("b8", env.type_manager.BVType(8))))
+        seeds.append(mgr.Function(mgr.Symbol("fn1", env.type_manager.FunctionType(env.type_manager.INT(),
+                                                                                 [env.type_manager.INT()])), [x]))
         for i in range(n):
             if ctx.time_left() < 25:
                 break
@@ -2561,6 +2660,7 @@ def run_transformations(ctx, judge, n):
                     # the Boolean-only transformations see theory terms as well: t = t'
                     f = mgr.Equals(f, fg.gen(ty, 2))
             check_transformations(ctx, judge, env, tr, f)
+            check_normalize(ctx, env, f)
     finally:
         pysmt.environment.pop_env()
 
@@ -2638,6 +2738,10 @@ def replay(ctx, rep):
             check_transformations(ctx, judge, env, transformations(env), f, only=r["transform"])
         finally:
             pysmt.environment.pop_env()
+    elif g == "normalize":
+        env = Environment()
+        f = fnode_of_raw(env, raw_of_wire(r["request_in"]))
+        check_normalize(ctx, env, f, clash_name=r.get("clash"))
     elif g == "hist":
         print("lean:", ctx.lean_run("C03", [r["request"]])[0], " recorded implementation:", r["impl"])
     judge.flush()
